@@ -189,7 +189,8 @@ func ruleRecoverFrames(prog *Program, rep *Report, rels []string, ruleName strin
 
 func ruleC06Extra(prog *Program, rep *Report) {
 	ruleSelfProgress(prog, rep, 1, "gen", "oj", "sen", "alt", "jp", "pretty", "asm", "")
-	ruleMemoGuard(prog, rep, 1, "alt") // Unmarshal into a self-referential type must not recurse without end while registering it
+	ruleNilMapWrite(prog, rep, "sen", "oj", "gen") // the parsers have no recover frame: a store into a nil map is a panic out of Parse
+	ruleMemoGuard(prog, rep, 1, "alt")             // Unmarshal into a self-referential type must not recurse without end while registering it
 	// with channel delivery the consumer reads a document while the parser works on the next: a recycled map (Reuse left on) is
 	// cleared under the reader - a fatal "concurrent map iteration and map write", not a recoverable panic
 	ruleArgParity(prog, rep, "oj.Parser", "gen.Parser", "sen.Parser")
